@@ -8,7 +8,7 @@ list; this module supplies, keyed by that family,
     FAMILY_STATS["structobj"], AGREE["structobj"]
     DIRECT[("C01","structobj")], DIRECT[("C03","structobj")], DIRECT[("C04","structobj")]
     EXPLAIN[(Cxx,"structobj")]
-    KNOWN_PREDICATES: struct_d41, struct_d44, struct_subdefault_cycle
+    KNOWN_PREDICATES: struct_d41, struct_d44, struct_d86, struct_subdefault_cycle
 
 Hooked into props.py by   props_struct.register(_sys.modules[__name__])   (after PROPS exists).
 Case / observation syntax: coq/Interp/RunXSchema.v.  For the builder's own end-to-end runs the three
@@ -157,7 +157,7 @@ def schema_facts(schema):
     """the class facts the direct checks and the known-finding predicates need"""
     tab = _scope_table(schema)
     facts = {"loose": False, "unfaithful": False, "empty_with_default": False, "d41": False, "cycle": False,
-             "structs": [], "empty": False, "unfaithful_disabled": False, "empty_ptr": False}
+             "structs": [], "empty": False, "unfaithful_disabled": False, "empty_ptr": False, "empty_subdefault": False}
     for o in _objects(schema):
         if _head(o) != "xobject":
             continue
@@ -177,6 +177,11 @@ def schema_facts(schema):
                 facts["unfaithful"] = True
             if empty and (p[7] != "none" or _has_default(p[1], tab)):
                 facts["empty_with_default"] = True
+            # treat-empty-as-default WITHOUT a declared default on a member object that has defaults of its own: the absent
+            # member is materialised from them (hypothesis 3 of xchildren_rt in C01_struct_roundtrip); the equality clauses
+            # stay skipped for these schemas.  WITH a declared default the clauses are checked: known finding D86.
+            if empty and p[7] == "none" and _has_default(p[1], tab):
+                facts["empty_subdefault"] = True
             if p[10] == "1" and not (required or _is_ptr_or_any(ft)):
                 facts["unfaithful_disabled"] = True
             # applySubObjectDefaultValues materialises an absent member that has defaults (non-pointer reflected type)
@@ -319,8 +324,8 @@ def c01_check_op(facts, op, o):
         return ("chain", "the round trip stopped: %s" % _fmt(o)[:200])
     w = o[3][1]
     norm = (lambda v: _norm_nil(_norm_empty(v))) if facts["empty_ptr"] else _norm_nil
-    if facts["empty_with_default"]:
-        return None        # a treat-empty-as-default property that also declares a default: outside the identification
+    if facts["empty_subdefault"]:
+        return None        # a treat-empty-as-default member object with defaults of its own: outside the identification
     if _cls(o[4]) != "ok":
         return ("reunser-rejected", "the serialized form is rejected by Unserialize (%s)" % _fmt(o[4]))
     if norm(o[4][1]) != norm(n):
@@ -513,14 +518,186 @@ def known_d41(m, case, obs, pred):
     return bool(fs) and all(f["d41"] and _model_agrees(obs, pred, i) for f, _, _ab, i in fs)
 
 
+# ---- D86: treat-empty-as-default AND a declared default: an explicitly supplied empty value comes back as the default ----
+
+_MISSING = object()
+
+
+def _raw_get(raw, name):
+    """the value a raw map supplies under the string key `name`"""
+    if isinstance(raw, list) and len(raw) >= 3 and raw[0] == "m":
+        for e in raw[3:]:
+            k = e[0]
+            if isinstance(k, list) and len(k) == 3 and k[0] == "s" and _s(k[2]) == name:
+                return e[1]
+    return _MISSING
+
+
+def _is_emptyval(x):
+    """the empty value of its type (what treat-empty-as-default identifies with absence): 0, "", false, empty list / map,
+    zero struct; behind a pointer field: a pointer to one"""
+    if isinstance(x, list) and len(x) == 3 and x[0] == "p" and x[2] != "nil":
+        x = x[2]
+    if isinstance(x, list) and x and x[0] in ("sl", "m"):
+        return len(x) == 3
+    return x != "nil" and not (isinstance(x, list) and x and x[0] == "p") and _is_zero(x)
+
+
+def _st_nav(st, idx):
+    """the field value at an index path of a printed struct value (through embedded structs / pointers) or _MISSING"""
+    cur = st
+    for k, i in enumerate(idx):
+        if isinstance(cur, list) and len(cur) == 3 and cur[0] == "p":
+            cur = cur[2]
+        if not (isinstance(cur, list) and cur and cur[0] == "st"):
+            return _MISSING
+        j = 2 + int(i)
+        if j >= len(cur):
+            return _MISSING
+        cur = cur[j][1]
+    return cur
+
+
+def _st_mask(st, idx):
+    """a copy of the struct value with the field at the index path blanked"""
+    if not idx:
+        return "MASKED"
+    if isinstance(st, list) and len(st) == 3 and st[0] == "p":
+        return [st[0], st[1], _st_mask(st[2], idx)]
+    if not (isinstance(st, list) and st and st[0] == "st"):
+        return st
+    j = 2 + int(idx[0])
+    if j >= len(st):
+        return st
+    out = list(st)
+    out[j] = [st[j][0], _st_mask(st[j][1], idx[1:])]
+    return out
+
+
+def _is_d86_prop(p):
+    return p[9] == "1" and p[7] != "none"
+
+
+def d86_explains(t, tab, a, b, raw, hits, depth=0):
+    """every difference between a (= Unserialize raw) and b (= Unserialize (Serialize a)) sits in a property that is
+    treat-empty-as-default with a declared default, was SUPPLIED by the raw input, holds the empty value of its type in a and
+    a non-empty value (the default) in b.  hits: the (property name) list of such differences."""
+    if depth > 24:
+        return False
+    norm = lambda v: _norm_nil(_norm_empty(v))
+    if norm(a) == norm(b):
+        return True
+    t = _resolve(t, tab)
+    h = _head(t)
+    if h == "oneof":
+        for m in t[2]:
+            hh = []
+            if d86_explains(m[1], tab, a, b, raw, hh, depth + 1):
+                hits.extend(hh)
+                return True
+        return False
+    if h == "list":
+        if not (isinstance(a, list) and isinstance(b, list) and a and b and a[0] == "sl" and b[0] == "sl" and len(a) == len(b)):
+            return False
+        rs = raw[3:] if isinstance(raw, list) and raw and raw[0] == "sl" and len(raw) == len(a) else [_MISSING] * (len(a) - 3)
+        return all(d86_explains(t[1], tab, x, y, r, hits, depth + 1) for x, y, r in zip(a[3:], b[3:], rs))
+    if h == "map":
+        if not (isinstance(a, list) and isinstance(b, list) and a and b and a[0] == "m" and b[0] == "m" and len(a) == len(b)):
+            return False
+        for ea, eb in zip(a[3:], b[3:]):
+            if ea[0] != eb[0]:
+                return False
+            r = _raw_get(raw, _s(ea[0][2])) if isinstance(ea[0], list) and ea[0][0] == "s" else _MISSING
+            if not d86_explains(t[2], tab, ea[1], eb[1], r, hits, depth + 1):
+                return False
+        return True
+    if h == "object":
+        if not (isinstance(a, list) and isinstance(b, list) and a and b and a[0] == "m" and b[0] == "m"):
+            return False
+        names = set()
+        for name, p in _props(t):
+            names.add(name)
+            av, bv, rv = _raw_get(a, name), _raw_get(b, name), _raw_get(raw, name)
+            if av is _MISSING and bv is _MISSING:
+                continue
+            if av is _MISSING or bv is _MISSING:
+                return False
+            if norm(av) == norm(bv):
+                continue
+            if _is_d86_prop(p) and rv is not _MISSING and _is_emptyval(av) and not _is_emptyval(bv):
+                hits.append(name)
+                continue
+            if not d86_explains(p[1], tab, av, bv, rv, hits, depth + 1):
+                return False
+        rest = lambda v: [e for e in v[3:] if not (isinstance(e[0], list) and e[0][0] == "s" and _s(e[0][2]) in names)]
+        return norm(rest(a)) == norm(rest(b))
+    if h == "xobject":
+        if isinstance(a, list) and isinstance(b, list) and len(a) == 3 and len(b) == 3 and a[0] == "p" and b[0] == "p" and a[1] == b[1]:
+            a, b = a[2], b[2]
+        if not (isinstance(a, list) and isinstance(b, list) and a and b and a[0] == "st" and b[0] == "st" and a[1] == b[1]):
+            return False
+        fields = _fields(t)
+        ma, mb = a, b
+        for name, p in _props(t):
+            f = fields.get(name)
+            if f is None:
+                continue
+            idx = [x for x in f[2]]
+            av, bv, rv = _st_nav(a, idx), _st_nav(b, idx), _raw_get(raw, name)
+            ma, mb = _st_mask(ma, idx), _st_mask(mb, idx)
+            if av is _MISSING and bv is _MISSING:
+                continue
+            if av is _MISSING or bv is _MISSING:
+                return False
+            if norm(av) == norm(bv):
+                continue
+            if _is_d86_prop(p) and rv is not _MISSING and _is_emptyval(av) and not _is_emptyval(bv):
+                hits.append(name)
+                continue
+            if not d86_explains(p[1], tab, av, bv, rv, hits, depth + 1):
+                return False
+        return norm(ma) == norm(mb)
+    return False
+
+
+def _c01_classes(case, obs, pred):
+    """one class per C01 finding of the case: 'd44' / 'd86' / None (= a violation)"""
+    schema, _ops = _payload(case)
+    tab = _scope_table(schema)
+    oo = _obs_ops(obs)
+    out = []
+    for f, op, (kind, _m), i in c01_findings(case, obs):
+        cls = None
+        if not _model_agrees(obs, pred, i):
+            cls = None
+        elif (f["unfaithful"] and kind in ("validate", "serialize")) or (f["unfaithful_disabled"] and kind == "reunser-rejected"):
+            cls = "d44"
+        elif kind == "reunser" and f["empty_with_default"]:
+            o = oo[i]
+            hits = []
+            if d86_explains(schema, tab, o[1][1], o[4][1], op[1], hits) and hits:
+                cls = "d86"
+        out.append(cls)
+    return out
+
+
+def known_d86(m, case, obs, pred):
+    """a property that is treat-empty-as-default AND declares a (decodable) default, supplied by the raw input with the EMPTY
+    value of its type: Unserialize keeps the empty value, Serialize drops it (empty = default), Unserialize of the serialized
+    form fills in the default: the C01 failure is exactly kind 'reunser', every differing position is such a property
+    (d86_explains), and the faithful model predicts the same observation.  Other findings of the same case (a case holds up
+    to 40 operations) may only be of the recorded class D44; anything else leaves the case a violation."""
+    cl = _c01_classes(case, obs, pred)
+    return bool(cl) and all(c is not None for c in cl) and "d86" in cl
+
+
 def known_d44(m, case, obs, pred):
     """an optional property on a non-pointer field (or a treat-empty-as-default one) is not faithfully absent/present
     on the way back: the result of Unserialize fails Validate / Serialize, or (a disabled one) its serialization is
     rejected.  Only those failure kinds, only on schemas with such a property, only as the faithful model predicts."""
-    fs = list(c01_findings(case, obs))
-    def ok(f, kind):
-        return (f["unfaithful"] and kind in ("validate", "serialize")) or (f["unfaithful_disabled"] and kind == "reunser-rejected")
-    return bool(fs) and all(ok(f, kind) and _model_agrees(obs, pred, i) for f, _, (kind, _m), i in fs)
+    # (findings of the recorded class D86 in the same case - a case holds up to 40 operations - do not unmatch it)
+    cl = _c01_classes(case, obs, pred)
+    return bool(cl) and all(c is not None for c in cl) and "d44" in cl
 
 
 def known_cycle(m, case, obs, pred):
@@ -649,6 +826,7 @@ def register(props):
     props.AGREE["structobj"] = struct_agree
     props.KNOWN_PREDICATES["struct_d41"] = known_d41
     props.KNOWN_PREDICATES["struct_d44"] = known_d44
+    props.KNOWN_PREDICATES["struct_d86"] = known_d86
     props.KNOWN_PREDICATES["struct_subdefault_cycle"] = known_cycle
     props.KNOWN_PREDICATES["struct_oneof_native_discriminator"] = known_d85
     direct = {"C01": c01_direct, "C03": c03_direct, "C04": c04_direct}
@@ -671,7 +849,7 @@ def register(props):
             "rule": rule,
             "assumptions": ["TEMPORARY pseudo-property standing for the structobj part of " + real,
                             "struct types of the harness family; exported fields only; no two struct types with identical field lists",
-                            "a treat-empty-as-default property declares no default (C01 equality clauses are skipped otherwise)"],
+                            "a treat-empty-as-default property with a declared default that is supplied empty comes back as the default (known finding D86, class struct_d86); a treat-empty-as-default member object with defaults of its own: C01 equality clauses skipped"],
             "level_text": STRUCT_LEVEL[real],
             "level_note": "Model = Schema/XSyntax.v + Schema/XOps.v + Base/XReflect.v, tied to schema/object.go by the structobj family",
             "design_ref": "DESIGN.md §5 " + real,
